@@ -59,6 +59,24 @@ func init() {
 		Assumptions: []string{seqAssumption},
 		Cases:       func(t string) int { return tierN(t, 1600, 40000) + tierN(t, 240, 6000) },
 		RunCase: func(c *CaseCtx) *CaseResult {
+			if c.Idx%100 == 57 {
+				// "every interval in which one of its tasks runs lies inside the job's span", with REAL process trees that ignore
+				// the interrupt: once the kill timeout has passed nothing of a canceled job may still run (what may still be
+				// alive at the very instant of the report is the known finding D9 of C20 and is not judged here)
+				shapes := []int{3, 10, 11, 12}
+				h := drv.RunProcCase(c.Seed, drv.ProcOpts{Shape: shapes[(c.Idx/100)%len(shapes)], CancelAt: 0, Others: 1, WorkDir: c.TmpDir})
+				res := &CaseResult{Idx: c.Idx, Inconclusive: h.Inconclusive, Evaluations: 1, Situations: []string{"real process tree survives the span of its canceled job?"}}
+				for _, f := range h.Findings {
+					if f.Sig == "C20:process-survives-kill-timeout" || f.Sig == "C20:canceled-job-never-reported-finished" {
+						f.Props = []string{"C01", "C20"}
+						res.Findings = append(res.Findings, f)
+					}
+				}
+				if len(res.Findings) > 0 {
+					res.Inconclusive = ""
+				}
+				return res
+			}
 			if c.Idx < tierN(c.Tier, 1, 8) {
 				// the limit / delay of a definition that arrives through the REAL reload path of the binary (SIGUSR1) is in force
 				bin := os.Getenv("PRUNNER_BIN")
@@ -98,6 +116,13 @@ func init() {
 		Assumptions: []string{seqAssumption, "unbounded 'eventually' is restated as 'nothing enabled is left undone at logical quiescence' (DESIGN.md section 6)"},
 		Cases:       func(t string) int { return tierN(t, 1600, 40000) },
 		RunCase: func(c *CaseCtx) *CaseResult {
+			if c.Idx%16 == 5 {
+				// a job queued behind a RUNNING job that is canceled at a directed instant (between two tasks with the loop
+				// parked, at the runner's entry, racing the last exit, ...) gets its turn
+				k := c.Idx / 16
+				o := drv.CancelOpts{Variant: []drv.CancelVariant{drv.CvParkedDeliveredBeforeRelease, drv.CvParkedReleaseRacesDelivery, drv.CvInsideRun, drv.CvRacingLastExit, drv.CvDeliveredAtRunEntry, drv.CvSiblingStillStoppingWhileTaskBecomesReady}[k%6], Shape: (k / 6) % 9, Boundary: (k / 54) % 7, TmpDir: c.TmpDir}
+				return simpleCase(c, drv.RunCancelCase(c.Seed&^1, o), 50) // (even seed: with follower)
+			}
 			if c.Idx%8 == 2 {
 				// jobs accepted after a restart: the store may hold jobs in any state, also states that exist only for an
 				// instant (all tasks done, job not yet completed); none of them may keep a later job from running
